@@ -152,12 +152,116 @@ def build_shared(cfg):
                   diseases=sir, networks=[school, home], interventions=vxs, demographics=[ss.Deaths(death_rate=cfg['death_rate'])])
 
 
+# ---------------------------------------------------------------------------
+# the family "behaviour supplied by the user as a callable" (round 5).  Every function below is module-level (so that Python
+# can pickle it by reference), keeps NO state of its own and acts only on the sim / module it is GIVEN: whatever a copied sim
+# calls must therefore follow the copy.  They act at (almost) every step, so a pause anywhere lies before a later effect.
+
+def _c09_record(sim, name, value):
+    mod = sim.analyzers[name]
+    if getattr(mod, 'record', None) is None:
+        mod.record = np.full(int(sim.t.npts), np.nan)
+    mod.record[int(sim.ti)] = value
+
+
+def c09_protect(sim):
+    """ intervention given as a plain function: every second step a moving slice of the living agents becomes immune """
+    if sim.ti % 2 == 0:
+        uids = sim.people.auids[(sim.ti // 2) % 5::5]
+        sim.diseases.sir.rel_sus[uids] = 0.0
+
+
+def c09_boost(sim):
+    """ intervention made by Intervention.from_func: every third step the oldest infected transmit more """
+    if sim.ti % 3 == 1:
+        sir = sim.diseases.sir
+        uids = (sir.infected & (sim.people.age > 35)).uids
+        sir.rel_trans[uids] = sir.rel_trans[uids] * 1.5
+
+
+def c09_count(sim):
+    """ analyzer given as a plain function """
+    sir = sim.diseases.sir
+    _c09_record(sim, 'c09_count', float(np.count_nonzero(sir.rel_sus.raw[sim.people.auids] == 0.0)))
+
+
+def c09_mean_age(sim):
+    """ analyzer made by Analyzer.from_func """
+    sir = sim.diseases.sir
+    uids = sir.infected.uids
+    _c09_record(sim, 'c09_mean_age', float(sim.people.age[uids].mean()) if len(uids) else -1.0)
+
+
+def c09_pdeath(module, sim, uids):
+    """ callable distribution parameter (called with the module, the sim and the uids at every draw) """
+    return 0.03 + 0.25 * (np.asarray(sim.people.age[uids]) > 40) + 0.01 * (sim.ti % 4)
+
+
+def c09_dur_mean(module, sim, uids):
+    return 3.0 + 0.05 * np.asarray(sim.people.age[uids])
+
+
+def c09_eligible(sim):
+    """ eligibility given as a function of the sim """
+    return (sim.people.age < 30 + sim.ti).uids
+
+
+def _user_classes():
+    """ the same behaviour as ordinary user-defined module classes (module-level names: picklable), holding the callable as an attribute """
+    import starsim as ss
+    if 'UserIntervention' not in globals():
+        class UserIntervention(ss.Intervention):
+            def __init__(self, rule=None, **kw):
+                super().__init__(**kw)
+                self.rule = rule
+            def step(self):
+                return self.rule(self.sim)
+        class UserAnalyzer(ss.Analyzer):
+            def __init__(self, rule=None, **kw):
+                super().__init__(**kw)
+                self.rule = rule
+                self.record = None
+            def step(self):
+                return self.rule(self.sim)
+        for c in (UserIntervention, UserAnalyzer):
+            c.__module__ = __name__; c.__qualname__ = c.__name__
+            globals()[c.__name__] = c
+    return globals()['UserIntervention'], globals()['UserAnalyzer']
+
+
+def callables_config(func_modules=True):
+    """ Always-exercised configurations of the family "behaviour supplied as a callable": interventions and analyzers given as plain
+        functions and via from_func (func_modules=True) or as user-defined classes holding the function (False), an eligibility
+        function, callable distribution parameters, a network built by a graph-generator callable; deaths change the population """
+    return dict(callables=True, func_modules=bool(func_modules), no_pickle=bool(func_modules), n_agents=300, rand_seed=11 if func_modules else 12,
+                unit='year', dt=1.0, start=2000, dur=9, beta=0.08, init_prev=0.08, vx_prob=0.3, efficacy=0.8, death_rate=25, static_p=0.01, dur_dists=None)
+
+
+def build_callables(cfg):
+    import starsim as ss, networkx as nx
+    sir = ss.SIR(beta=ss.beta(cfg['beta']), init_prev=ss.bernoulli(p=cfg['init_prev']), dur_inf=ss.normal(loc=c09_dur_mean, scale=1.0),
+                 p_death=ss.bernoulli(p=c09_pdeath))
+    vx = ss.routine_vx(name='young_vx', eligibility=c09_eligible, prob=cfg['vx_prob'], product=ss.sir_vaccine(name='young_vx_prod', efficacy=cfg['efficacy']))
+    if cfg['func_modules']:
+        intv = [c09_protect, ss.Intervention.from_func(c09_boost), vx]
+        ana = [c09_count, ss.Analyzer.from_func(c09_mean_age)]
+    else:
+        UI, UA = _user_classes()
+        intv = [UI(rule=c09_protect, name='c09_protect'), UI(rule=c09_boost, name='c09_boost'), vx]
+        ana = [UA(rule=c09_count, name='c09_count'), UA(rule=c09_mean_age, name='c09_mean_age')]
+    nets = [ss.RandomNet(n_contacts=ss.constant(4)), ss.StaticNet(graph=nx.fast_gnp_random_graph, p=cfg['static_p'])]
+    return ss.Sim(n_agents=cfg['n_agents'], rand_seed=cfg['rand_seed'], unit=cfg['unit'], dt=cfg['dt'], start=cfg['start'], dur=cfg['dur'], verbose=0,
+                  diseases=sir, networks=nets, interventions=intv, analyzers=ana, demographics=[ss.Deaths(death_rate=cfg['death_rate'])])
+
+
 def build(cfg):
     """ impl.build_sim plus an optional own timestep / duration distribution for the diseases (copied from impl.build_sim, which
         has no such options) """
     import starsim as ss
     if cfg.get('shared'):
         return build_shared(cfg)
+    if cfg.get('callables'):
+        return build_callables(cfg)
     if 'dur_dists' not in cfg and 'disease_dt_ratio' not in cfg:
         return build_zoo(cfg)       # plain impl format (zoo entries); this module's own generators always set dur_dists
     pars = dict(n_agents=cfg['n_agents'], rand_seed=cfg.get('rand_seed', 1), verbose=0)
@@ -206,6 +310,9 @@ def snapshot(sim):
         for st in getattr(mod, 'states', []):
             try: out[f'{mod.name}.{st.name}'] = np.asarray(st.raw[au]).copy()
             except Exception: pass
+        rec = getattr(mod, 'record', None)      # what a function-based / user-defined analyzer of this harness has written down
+        if isinstance(rec, np.ndarray):
+            out[f'{mod.name}.record'] = rec.copy()
     for net in sim.networks():
         try:
             for key in ('p1', 'p2', 'beta'):
@@ -363,6 +470,17 @@ def gen_script(rng, sim, nplan, nfuncs):
         tail.append(rng.choice([['run', ('none', None)], ['finalize'], ['step'], ['lstep', 1], ['restore', rng.choice(MODES)],
                                 ['run', gen_until(rng, sim)], ['observe', rng.choice(OBSERVERS)]]))
     return dict(ops=ops, twin=twin, tail=tail)
+
+
+def without_pickle(script):
+    """ the same script with every plain-pickle restore replaced by a deep copy: Python's pickle cannot serialise a module made by
+        Module.from_func (its step is a function defined inside from_func), before anything has run and with or without a pause —
+        a loud refusal, not a changed outcome; save+load (dill) and deep copies do apply """
+    sub = lambda ops: [['restore', 'deepcopy'] if (o[0] == 'restore' and o[1] == 'pickle') else o for o in ops]
+    twin = script['twin']
+    if twin is not None:
+        twin = dict(twin, mode='deepcopy' if twin['mode'] == 'pickle' else twin['mode'], ops=sub(twin['ops']))
+    return dict(ops=sub(script['ops']), twin=twin, tail=sub(script['tail']))
 
 
 def run_ops(sim, ops, tmpdir, lines, obs):
@@ -529,11 +647,11 @@ def correspond(ctx):
     from harness import zoo
     with tempfile.TemporaryDirectory(prefix='c09_') as tmpdir:
         # generated configurations (3 scripts each), then every entry of the scenario zoo (1 script each)
-        todo = [(None, None)] * (nconf + 2) + list(zoo.configs())
+        todo = [(None, None)] * (nconf + 4) + list(zoo.configs())
         for ci, (zname, zcfg) in enumerate(todo):
             pre = f'[zoo:{zname}] ' if zname else ''
             try:
-                cfg = zcfg if zname else (fixed_config() if ci == 0 else shared_config() if ci == 1 else gen_config(ctx.rng))
+                cfg = zcfg if zname else (fixed_config() if ci == 0 else shared_config() if ci == 1 else callables_config(ci == 2) if ci in (2, 3) else gen_config(ctx.rng))
                 probe = fresh_sim(cfg)
                 nplan, nfuncs = len(probe.loop.plan), len(probe.loop.funcs)
                 desc0 = c08.describe(probe)
@@ -546,6 +664,8 @@ def correspond(ctx):
                 ctx.count('zoo_skipped_not_separated' if zname else 'skipped_not_separated'); continue
             for _ in range(1 if zname else per):
                 script = gen_script(ctx.rng, probe, nplan, nfuncs)
+                if cfg.get('no_pickle'):
+                    script = without_pickle(script)
                 if zname and reads_global(cfg):
                     script['twin'] = None      # a twin of a sim whose outcome depends on the process-global generator is C01's finding
                 try:
@@ -586,14 +706,19 @@ def correspond(ctx):
 # ---------------------------------------------------------------------------
 # oracle on the real code only
 
-def oracle_pause(cfg, k, mode, twin, tmpdir, via='lstep'):
-    """ Pause after k functions, restore by `mode`, (twin: continue original as well), run to the end; compare with reference """
+def oracle_pause(cfg, k, mode, twin, tmpdir, via='lstep', until=None):
+    """ Pause after k functions (or, with `until`, by sim.run(until=...)), restore by `mode`, (twin: continue original as well), run
+        to the end; compare with reference """
     fails = []
     sim = fresh_sim(cfg)
     with warnings.catch_warnings():
         warnings.simplefilter('ignore')
-        for _ in range(k):
-            sim.loop.run_one_step()
+        if until is not None:
+            sim.run(until=until_value(sim, tuple(until))[0])
+            k = int(sim.loop.index)
+        else:
+            for _ in range(k):
+                sim.loop.run_one_step()
         try:
             copy = restore(sim, mode, tmpdir)
         except Exception as e:
@@ -901,6 +1026,55 @@ def search_shared(ctx, tmpdir):
                 ctx.fail(dict(f_sig, boundary='step-sweep'), f'[shared-objects, between {between}] ' + f_what, dict(kind='pause', cfg=cfg, k=k, mode=mode, twin=twin))
 
 
+def search_callables(ctx, tmpdir):
+    """ behaviour supplied as a callable (callables_config): function-based interventions / analyzers (plain and from_func), an
+        eligibility function, callable distribution parameters, a graph-generator callable.  The function-module configuration is
+        paused right after init and at EVERY boundary of one whole step, restored by deepcopy / save+load alternately (both next to
+        a function that runs user code), twins on alternate boundaries, plus pauses by a stop time and a MultiSim copy; the
+        class-based twin configuration (picklable by plain pickle) at every third boundary with all three modes rotating. """
+    for func_modules in (True, False):
+        cfg = callables_config(func_modules)
+        modes_ok = [m for m in MODES[1:] if not (cfg['no_pickle'] and m == 'pickle')]
+        try:
+            probe = fresh_sim(cfg)
+            labels = list(probe.loop.plan.func_label); names = list(probe.loop.plan.func_name)
+            starts = [i for i, l in enumerate(labels) if l == 'sim.start_step']; ends = [i for i, l in enumerate(labels) if l == 'sim.finish_step']
+            s = 2 + ctx.seed % 3
+            ks = [0] + list(range(starts[s], ends[s] + 2))
+            if not func_modules and not ctx.thorough:
+                ks = ks[(ctx.seed % 3)::3]
+            tv = [float(x) for x in probe.t.timevec]
+        except Exception as e:
+            ctx.count('callables_exceptions'); ctx.notes['last_callables_exception'] = f'{type(e).__name__}: {e}'; continue
+        user = lambda i: 0 <= i < len(labels) and names[i] in ('step', 'step_state') and not labels[i].startswith(('people', 'randomnet', 'staticnet', 'deaths'))
+        todo = []
+        for k in ks:
+            near = user(k - 1) or user(k)
+            modes = modes_ok if (ctx.thorough or (near and func_modules)) else [modes_ok[(k + ctx.seed) % len(modes_ok)]]
+            todo += [(k, m, None) for m in modes]
+        for j, u in enumerate([tv[s + 1], tv[s + 2] + 0.4, tv[0] - 1.0] if func_modules else [tv[s + 1] + 0.4]):
+            todo.append((None, modes_ok[(j + ctx.seed) % len(modes_ok)], ['num', u]))
+        for k, mode, until in todo:
+            twin = (k or 0) % 2 == 0
+            try:
+                fails = oracle_pause(cfg, k, mode, twin, tmpdir, until=until)
+            except Exception as e:
+                ctx.count('callables_exceptions'); ctx.notes['last_callables_exception'] = f'k={k} until={until} {mode}: {type(e).__name__}: {e}'; continue
+            ctx.count('callables_pauses'); ctx.count('oracle_mode_' + mode)
+            where = f'stopped by run(until={until[1]})' if until else f'between {labels[k - 1] if k else "-"} | {labels[k] if k < len(labels) else "-"}'
+            for f_sig, f_what in fails:
+                ctx.fail(dict(f_sig, boundary='callables'), f'[user-callables{"" if func_modules else " (class-based)"}, {where}] ' + f_what,
+                         dict(kind='pause', cfg=cfg, k=k, mode=mode, twin=twin, until=until))
+        if func_modules:
+            k = next((i + 1 for i in range(starts[s], ends[s]) if user(i)), starts[s] + 1)
+            try:
+                for f_sig, f_what in oracle_multisim(cfg, k):
+                    ctx.fail(dict(f_sig, boundary='callables'), '[user-callables] ' + f_what, dict(kind='multisim', cfg=cfg, k=k))
+                ctx.count('callables_multisim')
+            except Exception as e:
+                ctx.count('callables_exceptions'); ctx.notes['last_callables_exception'] = f'multisim: {type(e).__name__}: {e}'
+
+
 def search_zoo(ctx, tmpdir):
     """ every zoo configuration under one pause / restore / resume variant (rotating with the entry number and the seed) """
     from harness import zoo
@@ -950,6 +1124,8 @@ def search(ctx):
             ctx.fail(f_sig, f_what, dict(kind='guards', cfg=fx))
         # --- always exercised: objects shared by several scheduled functions of one step, every boundary of a step
         search_shared(ctx, tmpdir)
+        # --- always exercised: behaviour supplied as a callable (function-based modules, callable parameters / eligibility / graph)
+        search_callables(ctx, tmpdir)
         # --- always exercised: the fixed zoo of unusual-but-valid configurations
         search_zoo(ctx, tmpdir)
         for i in range(nconf):
@@ -984,7 +1160,7 @@ def replay(ctx, data):
     with tempfile.TemporaryDirectory(prefix='c09r_') as tmpdir:
         kind = data.get('kind')
         if kind == 'pause':
-            fails = oracle_pause(data['cfg'], data['k'], data['mode'], data.get('twin', False), tmpdir)
+            fails = oracle_pause(data['cfg'], data['k'], data['mode'], data.get('twin', False), tmpdir, until=data.get('until'))
         elif kind == 'guards':
             fails = oracle_guards(data['cfg'])
         elif kind == 'until':
